@@ -30,7 +30,7 @@ class ArbiterWorld(World):
     )
 
     def runs(self, prop, tier):
-        return {"quick": 1200, "thorough": 40000}[tier]
+        return {"quick": 4000, "thorough": 60000}[tier]
 
     def state_targets(self, prop, states):
         out = {}
